@@ -42,10 +42,10 @@ from .storage import diff
 ALIASES = {'Append_': 'Append', 'PackAtTid': 'Pack'}
 CHAIN_START = ('TpcBegin', 'UBegin')
 CHAIN_END = ('Finish', 'TpcAbort')
-EDITS = ('CreateBlob', 'Rewrite', 'Append', 'ConsumeFile', 'ConsumeFail', 'ModifyP')
+EDITS = ('CreateBlob', 'Rewrite', 'Append', 'ConsumeFile', 'ConsumeFail', 'ModifyP', 'OpenWrite', 'OpenRead')
 ALL_ACTIONS = EDITS + ('Savepoint', 'Rollback', 'AbortTxn', 'TpcBegin', 'StoreOK', 'StoreFail', 'Vote', 'Finish',
                        'ConnAbort', 'TpcAbort', 'OtherCommit', 'UBegin', 'UStoreOK', 'UStoreFail', 'Pack',
-                       'Wrong', 'OtherAbort', 'OtherFinish', 'Late', 'UStoreCopyFail')
+                       'Wrong', 'OtherAbort', 'OtherFinish', 'Late', 'UStoreCopyFail', 'CloseAll', 'Boundary')
 INLINE = ('Wrong', 'Late')          # calls made while a commit is in progress (from inside the Probe's callbacks)
 P_OID = 1
 
@@ -147,6 +147,7 @@ class BlobReplayer:
         self.handles = {}        # model blob -> Blob object of c1
         self.alloc = []          # oids handed to c1 since the last look
         self.sps = []
+        self.files = {}          # model blob -> (mode, file object) the application keeps open
         self.ext = 0
         self._md5 = {}
         self.stray = 0
@@ -204,6 +205,7 @@ class BlobReplayer:
             raise RuntimeError('set-up: dirty_oids not empty')
 
     def close(self):
+        self._reconcile_files(())
         if getattr(self, '_th', None) is not None:
             try:
                 self._late()
@@ -379,6 +381,10 @@ class BlobReplayer:
         out = {}
         for b in blobs:
             try:
+                if self.files.get(b, ('',))[0] == 'w' and not self.files[b][1].closed:
+                    with open(self.files[b][1].name, 'rb') as f:     # (a second handle is refused while a writer is open)
+                        out[b] = hashlib.md5(f.read()).hexdigest()
+                    continue
                 with self.handle(b).open('r') as f:
                     out[b] = hashlib.md5(f.read()).hexdigest()
             except Exception as ex:
@@ -480,6 +486,17 @@ class BlobReplayer:
                 with open(path, 'wb') as f:
                     f.write(self.data((x,)))
                 self.handle(b).consumeFile(path)
+            elif a == 'OpenWrite':
+                f = self.handle(args[0]).open('w')
+                self.files[args[0]] = ('w', f)
+                f.write(self.data((args[1],)))
+                f.flush()
+            elif a == 'OpenRead':
+                self.files[args[0]] = ('r', self.handle(args[0]).open('r'))
+            elif a == 'CloseAll':
+                self._reconcile_files(())
+            elif a == 'Boundary':
+                self.tm.begin()
             elif a == 'ConsumeFail':
                 self.handle(args[0]).consumeFile(os.path.join(self.dir, 'ext', 'no-such-file'))
             elif a == 'ModifyP':
@@ -523,6 +540,16 @@ class BlobReplayer:
             got = _exc_name(ex)
             self.last_exc = repr(ex)[:300]
         return got
+
+    def _reconcile_files(self, keep):
+        """drop the file objects the model no longer lists as open (closed by the application, or force-closed by
+        an invalidation: closing once more is harmless)"""
+        for b in list(self.files):
+            if b not in keep:
+                try:
+                    self.files.pop(b)[1].close()
+                except Exception:
+                    pass
 
     # ------------------------------------------------------------------ foreign calls, the racing thread, faults
     def _wrong(self, m):
@@ -899,6 +926,7 @@ def replay_behaviour(job):
             res['sig'].append(fmt(s))
             res['actions'][name] += 1
             got = rp.step(name, s['args'], steps[i - 1]['state'], s['state'])
+            rp._reconcile_files(set(s['state']['con']['hw']) | set(s['state']['con']['hr']))
             want = s['state']['res']['out']
             if name == 'Pack' and want in PACK_OK:
                 want = 'ok'
